@@ -239,6 +239,10 @@ class C02(Prop):
             return res.startswith("((")
         return "70617373" in res      # at least one permutation passed
 
+    def corpus(self):
+        # live corpus cases are run in extra() (cheap localisation instead of the generic list shrinker)
+        return [c for c in super().corpus() if c[0] != "c02.live"]
+
     # ---------------------------------------------------------------- generators
     def generate(self, rng, tier):
         quick = tier == "quick"
@@ -299,6 +303,8 @@ class C02(Prop):
                 wf_test(rng, "ss-error-after", st=SERVER, nresp=3, err=True, with_def=True),
                 wf_test(rng, "unary-error", st=UNARY, err=True, with_def=True),
                 wf_test(rng, "no-def", st=HALF, nreq=2, with_def=False),
+                wf_test(rng, "cs-many", st=CLIENT, nreq=7, with_def=True),
+                wf_test(rng, "fd-many", st=FULL, nreq=6, nresp=6, with_def=True),
             ]
             if not gs:
                 tests.append(wf_test(rng, "cs-zero", st=CLIENT, nreq=0))
@@ -318,7 +324,7 @@ class C02(Prop):
 
     def extra(self, ctx):
         rng = random.Random(ctx.seed * 7919 + 20002)
-        cases = list(self.live_cases(rng, ctx.tier))
+        cases = [c for c in super().corpus() if c[0] == "c02.live"] + list(self.live_cases(rng, ctx.tier))
         hang = [c for c in cases if c[1][1] and all(is_zero_request_stream(t) for t in c[3])]
         cases = [c for c in cases if c not in hang]
         g, m = ctx.eval_both(cases, "live")
@@ -378,7 +384,11 @@ class C02(Prop):
             for _ in range(4):
                 cands = []
                 for t in _shrink_candidates(cur[3][0]):
-                    if isinstance(t, list) and len(t) == 4:
+                    if isinstance(t, list) and len(t) == 4 and isinstance(t[3], list):
+                        if pair[1] and (is_zero_request_stream(t) or (is_half_multi(t) and cur[2][0][0] == 1)):
+                            continue        # would run into a known timing class of the grpc-go server (20 s each)
+                        if is_fd_immediate_error_multi(t):
+                            continue
                         cands.append([kind, pair, cur[2], [t]])
                     if len(cands) >= 30:
                         break
